@@ -25,7 +25,7 @@ SERVERS = {"P": P, "Q": Q}
 
 
 def bounds(tier):
-    return {"H14": "K<=%d calls from {subscribe(eventgroup in {IPv4/UDP, IPv6/TCP}, server in {P,Q}), stop_subscribe(...), start, stop}; gaps symbolic 0..7000 ms; delivery iteration/batching symbolic; observed when idle after the last call and 7 s later" % (5 if tier == "thorough" else 4)}
+    return {"H14": "calls from {subscribe(eventgroup in {IPv4/UDP, IPv6/TCP}, server in {P,Q}), stop_subscribe(...), start, stop}: %s; delivery iteration/batching symbolic; observed when idle after the last call and 7 s later" % ("K<=4 with gaps symbolic 0..7000 ms, and K=5 over one eventgroup with gaps 0..3500 ms" if tier == "thorough" else "K<=4 with gaps symbolic 0..3500 ms (before / at / after one refresh instant)")}
 
 
 def _valid(seq):
@@ -58,17 +58,24 @@ def _valid(seq):
 
 
 def cases(tier, seed):
-    K = 5 if tier == "thorough" else 4
-    ops = [["sub", g, s] for g in EGS for s in SERVERS] + [["unsub", g, s] for g in EGS for s in SERVERS] + [["start"], ["stop"]]
-    out = []
+    full = [["sub", g, s] for g in EGS for s in SERVERS] + [["unsub", g, s] for g in EGS for s in SERVERS] + [["start"], ["stop"]]
+    core = [["sub", "g1", s] for s in SERVERS] + [["unsub", "g1", s] for s in SERVERS] + [["start"], ["stop"]]
+    # (alphabet, K, maximal gap in ms)
+    plan = [(full, 4, 3500)] if tier == "quick" else [(full, 4, 7000), (core, 5, 3500)]
+    out, seen = [], set()
     for cfgname in ("finite", "forever"):
-        for k in range(1, K + 1):
-            for combo in itertools.product(ops, repeat=k):
-                if not _valid(combo):
-                    continue
-                if not any(o[0] == "start" for o in combo) and k > 1:
-                    continue  # a never started subscriber sends nothing: covered by k == 1
-                out.append({"h": "H14", "cfg": cfgname, "ops": [list(o) for o in combo], "_w": k})
+        for alpha, K, gap in plan:
+            for k in range(1, K + 1):
+                for combo in itertools.product(alpha, repeat=k):
+                    if not _valid(combo):
+                        continue
+                    if not any(o[0] == "start" for o in combo) and k > 1:
+                        continue  # a never started subscriber sends nothing: covered by k == 1
+                    key = (cfgname, repr(combo))
+                    if key in seen:
+                        continue
+                    seen.add(key)
+                    out.append({"h": "H14", "cfg": cfgname, "ops": [list(o) for o in combo], "gap": gap, "_w": k})
     return out
 
 
@@ -88,7 +95,7 @@ def h14(E, M, case):
     requested = set()
     marks = []  # (tick, running, frozenset(requested)) after each call
     for i, op in enumerate(case["ops"]):
-        t = t + E.int("dt%d" % i, 0, 7000)
+        t = t + E.int("dt%d" % i, 0, case["gap"])
         if op[0] == "sub":
             sc.at(t, lambda g=op[1], s=op[2]: sub.subscribe_eventgroup(egs[g], SERVERS[s]), "op%d" % i)
             requested.add((op[1], op[2]))
